@@ -18,7 +18,7 @@ func init() {
 			"R2 the request body handed to the client is the request's Body itself, unconditionally, and errors from copying it to the responder or closing the stdin stream are propagated; " +
 			"R4 the demultiplexer's decision table (streamReader.Read against scripted sequences of stdout and stderr records, several read sizes): the reader of the response receives exactly the stdout payloads in order, the error buffer exactly the stderr payloads, and that buffer reaches only the returned log error; " +
 			"R5 the extension test that routes a request to the responder lower-cases both sides, and the split position folds case unless CaseSensitivePath; " +
-			"R6 the record reader's decision table (headers with version, type, content length up to 65535 and padding up to 255, payload reads succeeding or failing): success means the 8-byte header and contentLength+paddingLength bytes were consumed, without 16-bit wrap-around, and exactly the content is handed back; R3 (bounds obligations of the client code) is decided under C19. Since round 4: R2 also: FCGIClient.Post hands the request body reader on unwrapped for every announced length; R5 splitPos as a table. Since round 6: R7 two fastcgi blocks yield rules that each hold their own block's env entries, index files and exceptions (the evaluator models in-place append into shared arrays). Since round 7: R8 a parameter whose encoded pair fits a record is sent whole (pairs of maxWrite-3 … maxWrite bytes). R9 an accepted response's header block holds the application's fields and not the CGI status line; R5's splitPos table finds the split string in any letter case with CaseSensitivePath on and off.",
+			"R6 the record reader's decision table (headers with version, type, content length up to 65535 and padding up to 255, payload reads succeeding or failing): success means the 8-byte header and contentLength+paddingLength bytes were consumed, without 16-bit wrap-around, and exactly the content is handed back; R3 (bounds obligations of the client code) is decided under C19. Since round 4: R2 also: FCGIClient.Post hands the request body reader on unwrapped for every announced length; R5 splitPos as a table. Since round 6: R7 two fastcgi blocks yield rules that each hold their own block's env entries, index files and exceptions (the evaluator models in-place append into shared arrays). Since round 7: R8 a parameter whose encoded pair fits a record is sent whole (pairs of maxWrite-3 … maxWrite bytes). R9 an accepted response's header block holds the application's fields and not the CGI status line; R5's splitPos table finds the split string in any letter case with CaseSensitivePath on and off. Since round 8: R10 the body reader NewReplacer installs hands on every byte before, across and after the 100 KiB it keeps for {request_body}.",
 		notDecided: "byte equality of params/body for all sizes (arithmetic of the flush thresholds); demultiplexing beyond the scripted framings (the table is per record and per short script).",
 	})
 }
